@@ -1159,7 +1159,16 @@ def module_flags(M):
 
 
 def build_module(M):
-    return drv.ModuleBuild(M.text, flags=module_flags(M), driver_src="c18_driver.c")
+    fl = module_flags(M)
+    try:
+        return drv.ModuleBuild(M.text, flags=fl, driver_src="c18_driver.c")
+    except drv.CompileError as e:
+        if "-fwide-types" in fl and e.stage == "asn1c" and "Unsupported value" in e.output:
+            # with -fwide-types asn1c refuses INTEGER identifiers outside 0..32767 (a diagnosed limitation): the module
+            # is built with the default options instead, and counted
+            M.wide_refused = True
+            return drv.ModuleBuild(M.text, flags=drv.DEFAULT_FLAGS, driver_src="c18_driver.c")
+        raise
 
 
 class Session(pipeline.Session):
@@ -1231,6 +1240,8 @@ def worker(spec, wseed, nvalues, rundir=None):
             acc.notes.append("rejected at %s rc=%s: %s || %s" % (e.stage, e.rc, e.output[-400:], M.text[:1500]))
         return acc
     acc.extra["modules"] += 1
+    if getattr(M, "wide_refused", False):
+        acc.extra["wide_types_build_refused_by_asn1c(identifier outside 0..32767; default options used)"] += 1
     if "FATAL" in mb.asn1c_output:
         acc.extra["modules_with_FATAL_but_exit0"] += 1
     try:
